@@ -343,9 +343,10 @@ class GraphState:
         if is_new or value is _EMIT_SENTINEL:
             self.versions[name] = self.versions.get(name, 0) + 1
         else:
-            # Defensive comparison for types like numpy arrays
+            # Defensive comparison for types like numpy arrays. Values of different
+            # types are different values even when they compare equal (1, 1.0, True).
             try:
-                changed = bool(old_value != value)
+                changed = type(old_value) is not type(value) or bool(old_value != value)
             except (ValueError, TypeError):
                 # Comparison failed (e.g., numpy arrays), assume changed
                 changed = old_value is not value
